@@ -140,6 +140,11 @@ def pair_strings(rule, props, default_bg):
         bg = osh.colour_string(b) if b else None
     else:
         bg = default_bg if default_bg is not None else "white"
+        if "var(" in bg:
+            import tinycss2
+
+            b = osh.resolve(osh.tokens_nf(tinycss2.parse_component_value_list(bg)), props)
+            bg = osh.colour_string(b) if b else None
     return text, bg
 
 
@@ -428,6 +433,32 @@ def subprocess_judge(case):
     return {"nt": (css, str(settings)), "cls": ["subprocess"]}
 
 
+def env_items(shard, nshards):
+    return [{"which": "cli"}] if shard == 0 else []
+
+
+def env_judge(case):
+    """One fixed non-ASCII sheet through the CLI in a CHILD interpreter under LC_ALL=C (UTF-8 mode and locale coercion off):
+    what is reported must still be what was written."""
+    from vlib import envleg
+
+    c = envleg.run_child("cli", True)
+    if "__crash__" in c:
+        raise Violation("locale-dependent:crash", f"the CLI workload crashes under LC_ALL=C: {c['__crash__'][-300:]}")
+    what = f"fixed non-ASCII sheet under LC_ALL=C (preferred encoding {c.get('preferred_encoding')})"
+    if c["exit"] != 0 or "Error processing" in c["stderr"]:
+        raise Violation("locale-dependent:cli-error", f"{what}: exit {c['exit']}, stderr {c['stderr']!r}")
+    nf_in = osh.normal(envleg.SHEET)
+    coloured = coloured_rules(nf_in)
+    cards = [{"selector": sel, "codes": codes, "file": "estilo.css"} for sel, codes in c["cards"]]
+    if c["counts"]["adjusted"] != len(cards) or sum(c["counts"].values()) != len(coloured):
+        raise Violation("locale-dependent:accounting", f"{what}: counts {c['counts']}, {len(cards)} cards, {len(coloured)} rules with a text colour")
+    if c["output"] is None:
+        raise Violation("locale-dependent:no-output-file", f"{what}: no output written although {c['counts']} was reported")
+    r = _judge_file("site/estilo.css", nf_in, c["output"], coloured, cards, [], 1, False, None, what)
+    return {"nt": ("env", "cli", c.get("preferred_encoding")), "cls": ["c-locale-child"], "sample": {"env": "LC_ALL=C PYTHONUTF8=0 PYTHONCOERCECLOCALE=0", "counts": c["counts"], "adjusted": r["A"]}}
+
+
 def subchecks(tier):
     q = tier == "quick"
     main_knobs = {"shared_vars": False}
@@ -437,6 +468,7 @@ def subchecks(tier):
         Hyp("sheets-shared-custom-property", strategy_factory({"shared_vars": True}), judge, examples=240 if q else 4000),
         Hyp("sheets-shared-f6-template", f6_template, judge, examples=64 if q else 640, shards=8),
     ]
+    subs.append(Enum("c-locale-fresh-interpreter", judge=env_judge, items=env_items, shards=1))
     if not q:
         subs.append(Hyp("console-script-subprocess", strategy_factory(main_knobs), subprocess_judge, examples=240))
     return subs
